@@ -170,6 +170,37 @@ func c02SmallAtoms() []*ref.Expr {
 	}
 }
 
+// c02RangeAtoms: every half-bounded range, the BETWEENs, the points and the
+// prefixes over four ordered literals (the empty one among them). Three of
+// them under every and/or tree (family rr3) reach the union / intersection
+// helpers with every relative position of their bounds, an empty bound next to
+// a missing one and a contradictory pair of bounds included.
+func c02RangeAtoms() []*ref.Expr {
+	k, sx := ref.Key, ref.S
+	lits := []string{"", "a", "b", "c"}
+	var a []*ref.Expr
+	for _, op := range []string{">", ">=", "<", "<="} {
+		for _, l := range lits {
+			a = append(a, ref.Bin(op, k(), sx(l)))
+		}
+	}
+	a = append(a, ref.Bin("<=", sx("b"), k()), ref.Bin(">", sx("b"), k()))
+	for _, lo := range lits {
+		for _, hi := range lits {
+			if lo <= hi {
+				a = append(a, ref.Btw(k(), sx(lo), sx(hi)))
+			}
+		}
+	}
+	for _, l := range lits {
+		a = append(a, ref.Bin("=", k(), sx(l)))
+	}
+	a = append(a, ref.Bin("^=", k(), sx("")), ref.Bin("^=", k(), sx("a")), ref.Bin("^=", k(), sx("b")), ref.In(k(), sx("a"), sx("c")))
+	return a
+}
+
+var c02RangeStore = []store.Pair{{K: "", V: "x"}, {K: "0", V: "y"}, {K: "a", V: "x"}, {K: "a0", V: "y"}, {K: "ab", V: "x"}, {K: "az", V: "y"}, {K: "b", V: "x"}, {K: "b0", V: "y"}, {K: "bz", V: "x"}, {K: "c", V: "y"}, {K: "c0", V: "x"}, {K: "z", V: "y"}}
+
 type c02Unit struct {
 	fam string
 	i   int
@@ -190,6 +221,9 @@ func c02Units(t core.Tier) []c02Unit {
 	}
 	if t == core.Thorough {
 		us = append(us, c02Unit{"in3", 0})
+	}
+	for i := range c02RangeAtoms() {
+		us = append(us, c02Unit{"rr3", i})
 	}
 	us = append(us, c02Unit{"inv", 0})
 	us = append(us, c02Unit{"del3", 0})
@@ -255,6 +289,19 @@ func (c02) RunUnit(t core.Tier, u int, r *core.Reporter) {
 					}
 				}
 				c02Explore(r, ref.Bin("&", ref.Not(ref.Bin("|", a.Clone(), b.Clone())), c.Clone()), stores[3])
+			}
+		}
+	case "rr3":
+		ra := c02RangeAtoms()
+		a := ra[un.i]
+		for _, b := range ra {
+			for _, c := range ra {
+				for _, o1 := range []string{"&", "|"} {
+					for _, o2 := range []string{"&", "|"} {
+						c02ExploreOpt(r, ref.Bin(o2, ref.Bin(o1, a.Clone(), b.Clone()), c.Clone()), c02RangeStore, t != core.Thorough)
+						c02ExploreOpt(r, ref.Bin(o1, a.Clone(), ref.Bin(o2, b.Clone(), c.Clone())), c02RangeStore, t != core.Thorough)
+					}
+				}
 			}
 		}
 	case "inv":
